@@ -108,7 +108,7 @@ Definition run (args : list bytes) : bytes :=
     end
   else if is_op "detect" op then
     let data := nth_arg args 1 in
-    let '(w, s, _, r) := cw_detect data in
+    let '(w, s, _, r) := detect_r data in
     out_res (out_opt (fun nm => nm)) r ++ lit "@" ++ out_N (f_pos s) ++ lit "|" ++ out_bool (f_closed s) ++ lit "|" ++ out_state w
   else lit "BADOP".
 Extraction "model.ml" run.
